@@ -24,8 +24,8 @@ typedef struct { int ci, p; } grp_t;
 static grp_t groups[MAXCFG * 40];
 static long ngroups;
 
-enum { E_TRUNC = 0, E_BYTE, E_W2, E_W3, E_SPLIT, E_COALESCE, E_RAW, E_HDR, E_NK };
-static const char *ename[] = { "truncate", "byte", "window16", "window24", "split-record", "coalesce", "raw-string", "raw-header" };
+enum { E_TRUNC = 0, E_BYTE, E_W2, E_W3, E_SPLIT, E_COALESCE, E_RAW, E_HDR, E_REFLIGHT, E_NK };
+static const char *ename[] = { "truncate", "byte", "window16", "window24", "split-record", "coalesce", "raw-string", "raw-header", "re-record-flight" };
 typedef struct { unsigned char kind; int off, val; } edit_t;
 
 typedef struct {
@@ -167,6 +167,42 @@ static void run_case(void *ctx, mx_result_t *r)
             len -= 3; /* coalesced with a truncated follower */
         }
         break;
+    case E_REFLIGHT:
+    {
+        /* the consecutive plaintext handshake records at the head of the wire are re-cut into three records at body
+           offsets off < val: the handshake BYTES are unchanged, only the record boundaries move */
+        static unsigned char body[40000];
+        int bl = 0, k, nrec = 0, cuts[4], i;
+        wire_t *q = &g->w.wire[peer];
+        for (k = 0; k < q->n; k++)
+        {
+            rec_t *x = &q->r[(q->head + k) % W_MAXREC];
+            if (x->len <= hdr || x->p[0] != SSL_RECORD_TYPE_HANDSHAKE || bl + x->len - hdr > (int) sizeof(body))
+            {
+                break;
+            }
+            memcpy(body + bl, x->p + hdr, (size_t) (x->len - hdr));
+            bl += x->len - hdr;
+            nrec++;
+        }
+        cuts[0] = 0; cuts[1] = e->off; cuts[2] = e->val; cuts[3] = bl;
+        len = 0;
+        for (i = 0; i < 3; i++)
+        {
+            int a = cuts[i], b = cuts[i + 1] - cuts[i];
+            memcpy(buf + len, g->seed, (size_t) hdr);
+            buf[len + hdr - 2] = (unsigned char) (b >> 8); buf[len + hdr - 1] = (unsigned char) b;
+            memcpy(buf + len + hdr, body + a, (size_t) b);
+            len += hdr + b;
+        }
+        for (k = 0; k < nrec; k++)
+        {
+            rec_t x = world_wire_pop(&g->w, peer);
+            free(x.p);
+        }
+        consumed_seed = 0;
+        break;
+    }
     case E_RAW:
         len = e->off; /* 0,1,2 bytes */
         buf[0] = (unsigned char) (e->val >> 8); buf[1] = (unsigned char) e->val;
@@ -340,6 +376,50 @@ static void run_group(long gi, void *unused)
             {
                 fork_edit(&g, E_COALESCE, 0, 0);
                 fork_edit(&g, E_COALESCE, 0, 1);
+            }
+            /* re-recording of a whole plaintext flight (TLS only): every pair of cut points out of {1, 4, 10 bytes into each
+               handshake message, its middle, 1 byte before its end} over the concatenated record bodies */
+            if (!ver_is_dtls(cfgs[g.ci].ver) && g.seed[0] == SSL_RECORD_TYPE_HANDSHAKE && g.next_len > 0 && g.next[0] == SSL_RECORD_TYPE_HANDSHAKE)
+            {
+                static unsigned char body[40000];
+                int bl = 0, pts[96], np = 0, a, b2, kk, off2 = 0;
+                wire_t *q = &g.w.wire[1 - g.victim];
+                for (kk = 0; kk < q->n; kk++)
+                {
+                    rec_t *x = &q->r[(q->head + kk) % W_MAXREC];
+                    if (x->len <= hdr || x->p[0] != SSL_RECORD_TYPE_HANDSHAKE || bl + x->len - hdr > (int) sizeof(body))
+                    {
+                        break;
+                    }
+                    memcpy(body + bl, x->p + hdr, (size_t) (x->len - hdr));
+                    bl += x->len - hdr;
+                }
+                while (off2 + 4 <= bl && np + 5 < 96)
+                {
+                    int ml = 4 + ((body[off2 + 1] << 16) | (body[off2 + 2] << 8) | body[off2 + 3]);
+                    static const int rel[3] = { 1, 4, 10 };
+                    if (off2 + ml > bl)
+                    {
+                        break;
+                    }
+                    for (kk = 0; kk < 3; kk++)
+                    {
+                        if (rel[kk] < ml) pts[np++] = off2 + rel[kk];
+                    }
+                    if (ml / 2 > 10) pts[np++] = off2 + ml / 2;
+                    if (ml - 1 > ml / 2) pts[np++] = off2 + ml - 1;
+                    off2 += ml;
+                }
+                for (a = 0; a < np && !mx_deadline_hit(); a++)
+                {
+                    for (b2 = a + 1; b2 < np; b2++)
+                    {
+                        if (pts[a] < pts[b2] && pts[b2] < bl && pts[b2] - pts[a] <= 16384 && pts[a] <= 16384 && bl - pts[b2] <= 16384)
+                        {
+                            fork_edit(&g, E_REFLIGHT, pts[a], pts[b2]);
+                        }
+                    }
+                }
             }
         }
         /* raw inputs in the first state and the connected state (quick: PSK configurations only, header alphabet on a stride) */
